@@ -191,10 +191,11 @@ def typed_labels(tbl, idx):
     return out
 
 
-def make_mw(idx, spec, tbl):
-    ns = {}
+def hook_fn(name, h, tbl):
+    """the recording hook `name` with behaviour `h`.  The middleware's index is read from the instance
+    (`self._rec_idx`): the function may live on a base class / mixin, and two instances may share one class."""
 
-    def msg_hook(name, h):
+    def msg_hook():
         def act(m):
             k = h["act"]
             if k == "raise" or (k == "raise_odd" and tid(m) % 2 == 1):
@@ -209,6 +210,7 @@ def make_mw(idx, spec, tbl):
             return m
         if h["async"]:
             async def f(self, m):
+                idx = self._rec_idx
                 log(who(), "hook", name, idx, m.task_id, canon(m.labels))
                 await susp(h.get("susp"))
                 try:
@@ -220,6 +222,7 @@ def make_mw(idx, spec, tbl):
                 return o
         else:
             def f(self, m):
+                idx = self._rec_idx
                 log(who(), "hook", name, idx, m.task_id, canon(m.labels))
                 try:
                     o = act(m)
@@ -230,13 +233,14 @@ def make_mw(idx, spec, tbl):
                 return o
         return f
 
-    def post_send_hook(name, h):
+    def post_send_hook():
         def act(m):
             k = h["act"]
             if k == "raise" or (k == "raise_odd" and tid(m) % 2 == 1):
                 raise CustomError("hook")
         if h["async"]:
             async def f(self, m):
+                idx = self._rec_idx
                 log(who(), "hook", name, idx, m.task_id, canon(m.labels))
                 await susp(h.get("susp"))
                 try:
@@ -245,6 +249,7 @@ def make_mw(idx, spec, tbl):
                     log(who(), "hook.exit", name, idx)
         else:
             def f(self, m):
+                idx = self._rec_idx
                 log(who(), "hook", name, idx, m.task_id, canon(m.labels))
                 try:
                     act(m)
@@ -252,8 +257,8 @@ def make_mw(idx, spec, tbl):
                     log(who(), "hook.exit", name, idx)
         return f
 
-    def res_hook(name, h):
-        def enter(m, r, a):
+    def res_hook():
+        def enter(idx, m, r, a):
             ev = ["hook", name, idx, m.task_id, canon(m.labels), r.is_err, r.return_value, excid(r.error),
                   canon(r.labels)]
             if name == "on_error":
@@ -268,7 +273,8 @@ def make_mw(idx, spec, tbl):
                 r.error = NoResultError()
         if h["async"]:
             async def f(self, m, r, *a):
-                enter(m, r, a)
+                idx = self._rec_idx
+                enter(idx, m, r, a)
                 await susp(h.get("susp"))
                 try:
                     act(r)
@@ -276,29 +282,102 @@ def make_mw(idx, spec, tbl):
                     log(who(), "hook.exit", name, idx)
         else:
             def f(self, m, r, *a):
-                enter(m, r, a)
+                idx = self._rec_idx
+                enter(idx, m, r, a)
                 try:
                     act(r)
                 finally:
                     log(who(), "hook.exit", name, idx)
         return f
 
+    f = msg_hook() if name in HOOKS_MSG else post_send_hook() if name == "post_send" else res_hook()
+    f.__name__ = f.__qualname__ = name
+    return f
+
+
+def shadowed_fn(name):
+    """a definition of `name` that sits BEHIND the effective override in the class's MRO (a base class whose hook the
+    subclass re-defines): Python never resolves to it, so it must never run - logged like a non-overridden hook"""
+    def f(self, *a):
+        log(who(), "base", name, self._rec_idx)
+        return a[0] if name in HOOKS_MSG else None
+    f.__name__ = f.__qualname__ = name
+    return f
+
+
+# where in the class hierarchy of one recording middleware a hook can be defined, in MRO order:
+#   leaf(mixin, base(root(TaskiqMiddleware)))
+MRO_RANK = {"leaf": 0, "mixin": 1, "base": 2, "root": 3}
+
+
+def hook_specs(spec):
+    return {n: spec.get(n) for n in HOOKS_ALL}
+
+
+def make_mw_class(idx, spec, tbl):
+    """the class of recording middleware `idx`.  spec["shape"] (absent = every hook on the class itself, which derives
+    directly from TaskiqMiddleware) says on which class of the hierarchy each overriding hook is DEFINED:
+      at      {hook: "leaf" | "mixin" | "base" | "root"}   (default "leaf")
+      shadow  {hook: where}   an extra definition further down the MRO than the effective one (never runs)
+      depth   minimal number of intermediate TaskiqMiddleware subclasses (0-2), mixin / mixin_mw: a mixin class is present
+              / it derives from TaskiqMiddleware itself (diamond), init: the leaf class defines only its own __init__
+    Whatever the shape, `cls.hook != TaskiqMiddleware.hook` holds exactly for the hooks of the spec that are not
+    instance attributes: the class overrides them in the sense of the property."""
+    shape = spec.get("shape") or {}
+    at = shape.get("at") or {}
+    ns = {w: {} for w in MRO_RANK}
     for name in HOOKS_ALL:
         h = spec.get(name)
         if h is None or h.get("inst"):
             continue
-        ns[name] = msg_hook(name, h) if name in HOOKS_MSG else post_send_hook(name, h) if name == "post_send" \
-            else res_hook(name, h)
-    inst = type("RecMw%d" % idx, (TaskiqMiddleware,), ns)()
-    for name in HOOKS_ALL:
-        h = spec.get(name)
-        if h is not None and h.get("inst"):
-            # a hook that exists only as an instance attribute: the class does not override it, never called
-            def stray(*a, _n=name):
-                log(who(), "base", _n, idx)
-                return a[0] if _n in HOOKS_MSG else None
-            setattr(inst, name, stray)
-    return inst
+        w = at.get(name, "leaf")
+        ns[w][name] = hook_fn(name, h, tbl)
+        sw = (shape.get("shadow") or {}).get(name)
+        if sw is not None and MRO_RANK[sw] > MRO_RANK[w]:
+            ns[sw][name] = shadowed_fn(name)
+    depth = shape.get("depth", 0)
+    parent = TaskiqMiddleware
+    if ns["root"] or depth >= 2:
+        parent = type("RecRoot%d" % idx, (parent,), ns["root"])
+    if ns["base"] or depth >= 1 or parent is not TaskiqMiddleware:
+        parent = type("RecBase%d" % idx, (parent,), ns["base"])
+    bases = (parent,)
+    if ns["mixin"] or shape.get("mixin"):
+        mixin = type("RecMixin%d" % idx, (TaskiqMiddleware,) if shape.get("mixin_mw") else (), ns["mixin"])
+        bases = (mixin, parent)
+    leaf = dict(ns["leaf"])
+    if shape.get("init"):
+        def __init__(self, tenant):
+            parent.__init__(self)
+            self.tenant = tenant
+        leaf["__init__"] = __init__
+    return type("RecMw%d" % idx, bases, leaf)
+
+
+def make_mws(specs, tbl):
+    """one recording middleware per spec.  shape["twin"]: another INSTANCE of the previous middleware's class (honoured
+    only if the two specs describe the same hooks)."""
+    out, prev = [], None
+    for idx, spec in enumerate(specs):
+        shape = spec.get("shape") or {}
+        if shape.get("twin") and prev is not None and hook_specs(specs[idx - 1]) == hook_specs(spec) \
+                and bool((specs[idx - 1].get("shape") or {}).get("init")) == bool(shape.get("init")):
+            cls = prev
+        else:
+            cls = make_mw_class(idx, spec, tbl)
+        inst = cls("tenant%d" % idx) if shape.get("init") else cls()
+        inst._rec_idx = idx
+        for name in HOOKS_ALL:
+            h = spec.get(name)
+            if h is not None and h.get("inst"):
+                # a hook that exists only as an instance attribute: the class does not override it, never called
+                def stray(*a, _n=name, _i=idx):
+                    log(who(), "base", _n, _i)
+                    return a[0] if _n in HOOKS_MSG else None
+                setattr(inst, name, stray)
+        out.append(inst)
+        prev = cls
+    return out
 
 
 # ------------------------------------------------------------------------------------- receive side
@@ -515,7 +594,7 @@ def run_recv(case):
         broker = ScriptedBroker()
         broker.formatter = RecFormatter(broker)
         broker.result_backend = RecBackend()
-        mws = [make_mw(k, s, tbl) for k, s in enumerate(case["mws"])]
+        mws = make_mws(case["mws"], tbl)
         broker.add_middlewares(*mws)
         CUR.update(mws=mws, plan={i: M for i, M in enumerate(msgs)}, exec={}, sending=False)
         orig_find = broker.find_task
@@ -591,7 +670,7 @@ def run_send(case):
         broker = ScriptedBroker()
         broker.formatter = RecFormatter(broker)
         broker.result_backend = RecBackend()
-        mws = [make_mw(k, s, tbl) for k, s in enumerate(case["mws"])]
+        mws = make_mws(case["mws"], tbl)
         broker.add_middlewares(*mws)
         CUR.update(mws=mws, plan={i: S for i, S in enumerate(sends)}, exec={}, sending=True)
 
